@@ -95,6 +95,9 @@ pub trait IterHandle {
     fn len(&self) -> usize;
     fn size_hint(&self) -> (usize, Option<usize>);
     fn dup(&self) -> Box<dyn IterHandle>;
+    /// `Clone::clone_from(self, other)`; `other` must wrap the same iterator type
+    fn clone_from_dyn(&mut self, other: &dyn IterHandle);
+    fn as_any(&self) -> &dyn std::any::Any;
     fn skip_next(&mut self, k: usize) -> Item;
     fn step_by_take(&mut self, step: usize, take: usize) -> Vec<Item>;
     fn rev_nth(&mut self, k: usize) -> Item;
@@ -194,6 +197,14 @@ where
     }
     fn dup(&self) -> Box<dyn IterHandle> {
         Box::new(H::<E> { it: self.it.clone(), exp: self.exp.clone(), near: std::cell::Cell::new(self.near.get()) })
+    }
+    fn clone_from_dyn(&mut self, other: &dyn IterHandle) {
+        if let Some(o) = other.as_any().downcast_ref::<H<E>>() {
+            self.it.clone_from(&o.it);
+        }
+    }
+    fn as_any(&self) -> &dyn std::any::Any {
+        self
     }
     fn skip_next(&mut self, k: usize) -> Item {
         let x = self.it.by_ref().skip(k).next();
@@ -407,6 +418,8 @@ pub enum Kind {
     VRposition,
     VFind,
     VRfind,
+    /// `handles[h].clone_from(&handles[k])`
+    CloneFrom,
 }
 
 /// (kind, script name, takes k, takes t)
@@ -441,6 +454,7 @@ pub const KINDS: &[(Kind, &str, bool, bool)] = &[
     (Kind::VRposition, "v_rposition", true, false),
     (Kind::VFind, "v_find", true, false),
     (Kind::VRfind, "v_rfind", true, false),
+    (Kind::CloneFrom, "clone_from", true, false),
 ];
 
 #[derive(Clone, Debug, PartialEq)]
@@ -470,7 +484,7 @@ impl Op {
     }
     /// k arguments that are *counts* (where "huge" means something); targets of find/position are not
     pub fn k_is_count(&self) -> bool {
-        self.has_k() && !matches!(self.kind, Kind::VPosition | Kind::VRposition | Kind::VFind | Kind::VRfind)
+        self.has_k() && !matches!(self.kind, Kind::VPosition | Kind::VRposition | Kind::VFind | Kind::VRfind | Kind::CloneFrom)
     }
     pub fn kopt(&self) -> Option<usize> {
         if self.k_is_count() {
@@ -532,7 +546,7 @@ pub const NAMES: &[&str] = &[
     "op_next", "op_next_back", "op_nth", "op_nth_back", "op_len", "op_size_hint", "op_clone", "op_drop", "op_skip_next",
     "op_step_by", "op_rev_nth", "op_rev_skip_next", "op_last", "op_count", "op_debug_fmt", "op_iter", "op_take_back",
     "op_skip_back", "op_enumerate_back", "op_step_by_back", "op_v_last", "op_v_count", "op_v_fold", "op_v_rfold",
-    "op_v_collect", "op_v_rev_collect", "op_v_position", "op_v_rposition", "op_v_find", "op_v_rfind",
+    "op_v_collect", "op_v_rev_collect", "op_v_position", "op_v_rposition", "op_v_find", "op_v_rfind", "op_clone_from",
 ];
 const C_HUGE_FRESH: usize = 0;
 const C_HUGE_FRONT: usize = 1;
@@ -973,6 +987,20 @@ impl<'a> Exec<'a> {
                     let s = &slots[hi];
                     item_op!(s.real.v_rfind(k), s.model.clone().rfind(|x| *x == k))
                 }
+                Kind::CloneFrom => {
+                    let src = k % slots.len();
+                    if src != hi {
+                        let mut dst = slots.remove(hi);
+                        let src_i = if src > hi { src - 1 } else { src };
+                        let r = catch(|| dst.real.clone_from_dyn(&*slots[src_i].real));
+                        dst.model = slots[src_i].model.clone();
+                        dst.consumed_back = slots[src_i].consumed_back;
+                        dst.parent = Some(src);
+                        slots.insert(hi, dst);
+                        r.map_err(|p| fail("panic", "no panic".into(), format!("panic: {}", p)))?;
+                        self.note(|| op.line());
+                    }
+                }
                 Kind::Clone => {
                     if slots.len() < MAX_HANDLES {
                         let s = &slots[hi];
@@ -1122,6 +1150,12 @@ fn advance_shadow(sh: &mut Vec<Model>, n: usize, h: usize, op: &Op) {
                 sh.push(c);
             }
         }
+        Kind::CloneFrom => {
+            let src = k % sh.len();
+            if src != h {
+                sh[h] = sh[src].clone();
+            }
+        }
         Kind::Drop => {
             if sh.len() > 1 {
                 sh.remove(h);
@@ -1216,6 +1250,7 @@ pub fn gen_ops(rng: &mut Rng, n: usize) -> (Vec<Op>, bool) {
             ad(allow_by_value, 2),                       // v_rposition
             ad(allow_by_value, 2),                       // v_find
             ad(allow_by_value, 2),                       // v_rfind
+            ad(allow_clone, 3),                          // clone_from
         ];
         let kind = KINDS[rng.weighted(&w)].0;
         let mut op = Op::new(kind, h);
@@ -1224,6 +1259,8 @@ pub fn gen_ops(rng: &mut Rng, n: usize) -> (Vec<Op>, bool) {
             if kind == Kind::StepBy {
                 op.t = rng.range(1, 4) as usize;
             }
+        } else if kind == Kind::CloneFrom {
+            op.k = rng.usize_below(MAX_HANDLES);
         } else if op.has_k() {
             // target item of find/position: any item index, sometimes one past the end
             op.k = rng.usize_below(n + 2);
